@@ -289,6 +289,13 @@ impl Module {
         if lhs < rhs {
             std::mem::swap(&mut lhs, &mut rhs);
         }
+        if lhs == rhs {
+            // swapping a card with itself is a no-op, the three-way replace below would lose it
+            return self
+                .get_card(lhs)
+                .map(drop)
+                .map_err(|err| SwapError::FetchError(lhs.clone(), err));
+        }
 
         let rhs_card = self
             .replace_card(rhs, CardBody::ScalarNil.into())
